@@ -100,6 +100,10 @@ impl ServiceStateActions for NodeService<'_> {
         if let Some(metrics_port) = self.service_data.metrics_port {
             args.push(OsString::from("--metrics-server-port"));
             args.push(OsString::from(metrics_port.to_string()));
+            if metrics_port == 0 {
+                // antnode only accepts "pick a random metrics port" together with this flag
+                args.push(OsString::from("--enable-metrics-server"));
+            }
         }
         if let Some(max_archived_log_files) = self.service_data.max_archived_log_files {
             args.push(OsString::from("--max-archived-log-files"));
